@@ -78,6 +78,7 @@ type Scenario struct {
 	FailKind string `json:"failkind"`
 	FailNth  int    `json:"failnth"`
 	Root     string `json:"root"` // non-empty: file-backed sqlite store in this directory
+	NegRetries bool `json:"negretries"` // actions are submitted with Retries -1 / -2: "less than none" is none (Shape.Retries stays 0)
 	LagIdx   bool   `json:"lagidx"` // ws histories: at a restart the search index may still list a finished plan as Running
 
 	curTr, curK int
@@ -159,7 +160,11 @@ func buildPlan(sc *Scenario, pl int) *workflow.Plan {
 		c := &workflow.Checks{Delay: delay}
 		for i := 1; i <= n; i++ {
 			nm := fmt.Sprintf("%s.a%d", prefix, i)
-			c.Actions = append(c.Actions, &workflow.Action{Name: nm, Descr: nm, Plugin: "chk", Req: Req{Tag: fmt.Sprintf("%d#%s", pl, nm)}, Timeout: sc.timeout(), Retries: sh.CRetries})
+			cr := sh.CRetries
+			if sc.NegRetries && cr == 0 {
+				cr = -1
+			}
+			c.Actions = append(c.Actions, &workflow.Action{Name: nm, Descr: nm, Plugin: "chk", Req: Req{Tag: fmt.Sprintf("%d#%s", pl, nm)}, Timeout: sc.timeout(), Retries: cr})
 		}
 		return c
 	}
@@ -181,7 +186,11 @@ func buildPlan(sc *Scenario, pl int) *workflow.Plan {
 			sq := &workflow.Sequence{Name: fmt.Sprintf("%s.s%d", b.Name, si+1), Descr: "s"}
 			for ai := 1; ai <= na; ai++ {
 				nm := fmt.Sprintf("%s.a%d", sq.Name, ai)
-				sq.Actions = append(sq.Actions, &workflow.Action{Name: nm, Descr: nm, Plugin: seqPlugin, Req: Req{Tag: fmt.Sprintf("%d#%s", pl, nm)}, Retries: sh.Retries, Timeout: sc.timeout()})
+				retries := sh.Retries
+				if sc.NegRetries && retries == 0 {
+					retries = -1 - ai%2
+				}
+				sq.Actions = append(sq.Actions, &workflow.Action{Name: nm, Descr: nm, Plugin: seqPlugin, Req: Req{Tag: fmt.Sprintf("%d#%s", pl, nm)}, Retries: retries, Timeout: sc.timeout()})
 			}
 			b.Sequences = append(b.Sequences, sq)
 		}
